@@ -1,6 +1,32 @@
 import RgVerif.Driver.SearcherCommon
+import RgVerif.Spec.MaxCount
 namespace RgVerif.Driver.C16
 open RgVerif RgVerif.Driver.SearcherCommon
+
+/-- one callback per character: b begin, m matched, a / c / o after / before / other context, k break,
+n binary notice, f finish -/
+def kindEvent : Char → Option Searcher.Event
+  | 'b' => some .begin
+  | 'm' => some (.matched none 0 [])
+  | 'a' => some (.context .after none 0 [])
+  | 'c' => some (.context .before none 0 [])
+  | 'o' => some (.context .other none 0 [])
+  | 'k' => some .contextBreak
+  | 'n' => some (.binaryData 0)
+  | 'f' => some (.finish 0 none)
+  | _ => none
+
+/-- `c16.quitindex N A kinds` → `<model>|<spec>`: the index of the callback at which a printer sink with
+`max_matches = N` first answers "stop" along the stream `kinds` (M: the counters of `StandardSink` folded over
+the stream; S: the counting spec `quitIndex`), `-` if never. -/
+def handleQuitIndex (args : List Sx) : String :=
+  match args with
+  | [n, a, .atom kinds] =>
+    match n.nat?, a.nat?, kinds.toList.mapM kindEvent with
+    | some n, some a, some evs =>
+      optNat (MaxCount.firstFalse 0 (MaxCount.answers (some n) a {} evs)) ++ "|" ++ optNat (MaxCount.quitIndex n a evs)
+    | _, _, _ => "bad-op"
+  | _ => "bad-op"
 
 /-- Request handler of property C16: `c16.model cfg matcher inp sink` (M; the spec side of C16 is the
 prefix rule, computed by the harness from the uninterrupted model/impl run), `c16.path cfg matcher`. -/
@@ -9,6 +35,7 @@ def handle (cmd : String) (args : List Sx) : String :=
   | "c16.model" => handleModel args
   | "c16.spec" => handleSpec args
   | "c16.path" => handlePath args
+  | "c16.quitindex" => handleQuitIndex args
   | _ => "bad-op"
 
 end RgVerif.Driver.C16
